@@ -108,6 +108,7 @@ func loadEngine(repo, specDir string) (*Engine, error) {
 				old.Pure = old.Pure || fc.Pure
 				old.NoHavoc = old.NoHavoc || fc.NoHavoc
 				old.PreservesArgs = old.PreservesArgs || fc.PreservesArgs
+				old.ArithAssumed = old.ArithAssumed || fc.ArithAssumed
 				old.Inline = old.Inline || fc.Inline
 				continue
 			}
